@@ -1394,7 +1394,7 @@ def oracle_stale(kind, ops):
     fails = []
     ver, e, g, h, hi, oh = run_machine(kind, ops)
     if (e is not None or g is not None or h is not None or oh is not None) and kind == "cart" and ops[-1] == "OIaddCall":
-        # Props.cartesian_iadd_keeps_tensors_refuted
+        # repaired by /repo 2c6603e (Props.direct_iadd_clears_tensors); a reproduction is a violation again
         fails.append(("CartesianCoordinates.iadd|keeps-tensors",
                       f"cart: after {ops} (x.iadd(d) called directly, cartesian.py:79-80 = ndarray.__iadd__) the coordinates moved "
                       f"(version {ver}) but _e/_g/_h still hold the tensors of version {e}/{g}/{h}",
@@ -1946,7 +1946,7 @@ MANIFEST = {
                    "idempotent (Moore-Penrose equations as premises), unique when B A = I; after any operation sequence ending in "
                    "a coordinate change made through the OptCoordinates operators (c[k]=v, +, -, +=, -=; machine composed of copy / "
                    "clear_tensors / kind-specific primitive iadd, for Cartesian and DIC) _e = _g = _h = _h_inv = None and .h returns None; "
-                   "no stored tensor is ever stale except after a direct CartesianCoordinates.iadd call (refuted, finding); the Schmidt "
+                   "no stored tensor is ever stale and a direct iadd() call clears them too (both kinds, after /repo 2c6603e); the Schmidt "
                    "output need not span the input columns (refuted); active and inactive "
                    "indexes partition 0..n+m-1 and the assembled Lagrangian Hessian is the symmetric Jacobian of the assembled "
                    "gradient.  The model is tied to /repo by correspondence streams on every run."),
